@@ -36,7 +36,7 @@ def run(pid, tier, seed, replay=None):
         ck.add_tlc("Trace_FitArgs (%d calls)" % len(rows), r2)
         if r2.rc != 0 or not rep:
             raise vlib.Infra("Trace_FitArgs failed:\n" + r2.out[-2000:])
-        good = {"weights": "ok", "ncoord": "ok", "coordlen": "ok", "index": "ok", "norder": "ok", "nknotv": "ok", "knots": "ok", "penorder": "ok"}
+        good = {"weights": "ok", "ncoord": "ok", "coordlen": "ok", "index": "ok", "norder": "ok", "nknotv": "ok", "knots": "ok", "penorder": "ok", "order": "ok"}
         for d in rep[-1]["deviations"]:
             ev = rows[d["line"] - 1]
             badargs = sorted("%s=%s" % (k, v) for k, v in ev["combo"].items() if (k in good and v != good[k]) or (k in ("nsmooth", "npen") and v == "other") or (k == "monodim" and v in ("ndim", "huge")))
